@@ -1,5 +1,24 @@
 """Property -> machinery."""
 PROPS = {
+    "C10": {
+        "x": ["harness.hC10"],
+        "extra": ["harness.pC10.run"],
+        "level": "other",
+        "explanation": "Engine X: (S1) the back end of compile() raises nothing but SsbCompilerError on every labelled "
+                       "list up to the bound; (S3) the exception funnel of compile() over symbolic __context__ chains; "
+                       "(S4) the attribute parser answers for every text; (S5) the literal readers raise only "
+                       "documented types on every DECIMAL token text. Enumerated part (E4): every rejection rule of the "
+                       "property at depth 0-2 placements, macro and import graph errors (scratch directories) and seeded "
+                       "token corruptions, each run through the public compile() and judged by exception type. "
+                       "'Every input text' cannot be solver-decided (ANTLR) and is not claimed.",
+        "technique": "CrossHair+z3 symbolic execution of back end / exception funnel / attribute parser / literal "
+                     "readers; enumerated statically-invalid programs through the public API",
+        "level_text": "Totality of the non-ANTLR stages is solver-decided within bounds; the static rejection rules are "
+                      "enumerated with all placements up to depth 2.",
+        "level_note": "Trusted: CrossHair, z3. The token-level input space (ANTLR lexer/parser) is outside the claim.",
+        "assumptions": ["rejection rules enumerated, not symbolic", "exception types outside the four deliberate ones are "
+                        "not claimed to be funnelled"],
+    },
     "C03": {
         "x": ["harness.hC03"],
         "extra": ["harness.pC03.run"],
